@@ -1,4 +1,6 @@
 """C06 - flattening yields an import-free model and leaves its inputs alone (structural clauses)."""
+import re
+
 from facts import walk, render, role, AnalysisBroken
 from engines import ff, nth_arg, receiver, enclosing_conditions
 from issues import must_pass
@@ -138,11 +140,74 @@ def run(F, rep):
             def recursive(fn):
                 return any(fn.key in F.reach([x]) for x in F.callees.get(fn.key, ()))
             good = [callee for c, callee in passed if callee.key == g.key or g.key in F.reach([callee.key]) or recursive(callee)]
+            # the descent must happen in every iteration: nothing but the loop condition may decide it
+            base = set(ff(g).rendered_conds_at(role(loop, 'cond')) or set()) | {(render(role(loop, 'cond')), True)}
+            for c, callee in passed:
+                if callee in good:
+                    extra = sorted((t, tr) for t, tr in (ff(g).rendered_conds_at(c) or set()) - base if 'nullptr' not in t)
+                    rep.check(not extra, 'C06.V1', '%s|%s|unconditional' % (g.short.split('::')[-1], render(c)[:40]), g.where(c),
+                              '%s descends into a child only when %s: the subtree below a child that fails the test is skipped' % (g.short, ' and '.join('`%s` is %s' % e for e in extra)[:160]), 'descends in every iteration')
             rep.check(bool(good), 'C06.V1', '%s|%s' % (g.short.split('::')[-1], render(role(loop, 'cond'))[:50]), g.where(loop),
                       '%s hands each child only to %s, none of which walks further down: grandchildren of the component are skipped' % (g.short, sorted({c.short for _, c in passed})),
                       'child handed to %s, which re-enters %s' % (good[0].short if good else '', g.short))
     if n_v < 6:
         raise AnalysisBroken('C06.V1: only %d child loops found (8 confirmed)' % n_v)
+
+    rep.rule('C06.V2', 'results gathered from a subtree are merged completely: no call in the reach of flattenModel receives an iterator range whose two ends are the same expression (an empty range merges nothing)')
+
+    def degenerate_ranges(f):
+        out = []
+        for c in f.walk():
+            if c.get('k') == 'Call' and not c.get('opc'):
+                args = c['c'][1:] if c.get('mc') else c['c']
+                for a, b in zip(args, args[1:]):
+                    if a.get('k') == 'Call' and a.get('mc') and a.get('fn') in ('begin', 'cbegin', 'end', 'cend', 'rbegin', 'rend') and render(a) == render(b):
+                        out.append(c)
+        return out
+    import facts as _facts
+    fx = _facts.fixture_funcs('charcmp')
+    if len(degenerate_ranges(fx['fixtureMergeBad'])) != 1 or degenerate_ranges(fx['fixtureMergeGood']):
+        raise AnalysisBroken('C06.V2: the detector does not separate the two fixture functions (sa/fixtures/src/charcmp.cpp)')
+    n_r = 0
+    badr = []
+    for k in reach:
+        g = F.funcs[k]
+        n_r += sum(1 for c in g.walk() if c.get('k') == 'Call' and c.get('fn') in ('insert', 'assign') and len(c.get('c', [])) >= 3)
+        badr += [(g, c) for c in degenerate_ranges(g)]
+    for g, c in badr:
+        rep.fail('C06.V2', '%s|%s' % (g.short.split('::')[-1], render(c)[:50]), g.where(c), '%s: `%s` is an empty range, what was gathered below is dropped' % (g.short, render(c)[:70]))
+    if not badr:
+        rep.ok('C06.V2', 'scan', None, '%d range insertions in the reach of flattenModel, none degenerate (fixture: 1 of 2 flagged, as expected)' % n_r)
+
+    rep.rule('C06.L1', 'no loop in the reach of flattenModel advances an index over a collection (i < x->kCount(); ++i) while its body hands x->k(i) to an add/replace/take/remove of the entity model: '
+                       'those move the child out of x, the collection shrinks under the index and every second child is skipped')
+
+    def shrinking_index_loops(f):
+        out = []
+        for loop in f.walk():
+            if loop.get('k') != 'For':
+                continue
+            m = re.match(r'(\w+) < (.+)->(\w+)Count\(\)$', render(role(loop, 'cond')) or '')
+            inc = role(loop, 'inc')
+            if not m or inc is None or '++' not in render(inc):
+                continue
+            ivar, owner, kind = m.groups()
+            child = '%s->%s(%s)' % (owner, kind, ivar)
+            aliases = {v['n'] for v in walk(role(loop, 'body')) if v.get('k') == 'Var' and v.get('c') and render(v['c'][0]) == child}
+            for c in walk(role(loop, 'body')):
+                if c.get('k') == 'Call' and c.get('mc') and not c.get('opc') and re.match(r'(add|replace|take|remove)[A-Z]', c.get('fn', '')):
+                    args = [render(a) for a in c['c'][1:]]
+                    if any(a == child or a in aliases for a in args) and c.get('fn', '')[len(re.match(r'(add|replace|take|remove)', c['fn']).group(1)):].lower().startswith(kind.lower()[:4]):
+                        out.append((loop, c))
+        return out
+    fx = _facts.fixture_funcs('charcmp')
+    if len(shrinking_index_loops(fx['fixtureMoveBad'])) != 1 or shrinking_index_loops(fx['fixtureMoveGood']):
+        raise AnalysisBroken('C06.L1: the detector does not separate the two fixture functions (sa/fixtures/src/charcmp.cpp)')
+    badl = [(F.funcs[k], lp, c) for k in reach for lp, c in shrinking_index_loops(F.funcs[k])]
+    for g, lp, c in badl:
+        rep.fail('C06.L1', '%s|%s' % (g.short.split('::')[-1], render(c)[:50]), g.where(c), '%s: `%s` inside `for (%s; ++)` moves the child out of the collection being indexed: every second child is skipped' % (g.short, render(c)[:60], render(role(lp, 'cond'))))
+    if not badl:
+        rep.ok('C06.L1', 'scan', None, 'no index loop moves children out of its own collection in %d functions (fixture: 1 of 2 flagged, as expected)' % len(reach))
 
     # ------------------------------------------------------------------ A
     rep.rule('C06.A1', 'a bool local that is initialised before a loop, assigned inside it and read after it accumulates over the iterations: inside the loop it is only assigned the constant that differs from its initial value, '
